@@ -173,16 +173,19 @@ Definition leaf (mid : str) (b : brule) (vfs : list (list str)) (nd : node) : ou
     let body_fine := match b_body b with BField p => resolves mid p && body_ok mid p | _ => true end in
     let resp_fine := match b_resp b with [] => true | p => resp_ok mid p end in
     if body_fine && resp_fine then Ok (Build_minfo mid vfs (b_body b) (b_resp b)) else Err EInvalid in
+  (* the body and response_body selectors are validated first (since the repair of R11): a rule that
+     repeats a binding the method already has is still a rule that has to be well-formed *)
+  do m <- mk;
   if match n_mall nd with Some y => conflict mid y | None => false end then Err EInvalid
   else if str_eqb (b_verb b) star_verb then
     if existsb (fun kv => conflict mid (snd kv)) (n_meths nd) then Err EInvalid
     else match n_mall nd with
          | Some _ => Ok nd                                     (* already registered *)
-         | None => do m <- mk; Ok (Node (n_segs nd) (n_vars nd) (n_meths nd) (Some m))
+         | None => Ok (Node (n_segs nd) (n_vars nd) (n_meths nd) (Some m))
          end
   else match assoc (b_verb b) (n_meths nd) with
        | Some y => if conflict mid y then Err EInvalid else Ok nd
-       | None => do m <- mk; Ok (Node (n_segs nd) (n_vars nd) (n_meths nd ++ [(b_verb b, m)]) (n_mall nd))
+       | None => Ok (Node (n_segs nd) (n_vars nd) (n_meths nd ++ [(b_verb b, m)]) (n_mall nd))
        end.
 
 Section WithClass.
@@ -217,7 +220,7 @@ Definition implicit_rule (mid : str) : hrule :=
      h_adds := [] |}.
 Definition append_handler (root : node) (d : mdecl) : outcome node :=
   match add_rule (d_id d) root (implicit_rule (d_id d)) with
-  | Err _ => Panic PExplicit
+  | Err e => Err e    (* (it used to be panic("bug: ...")) *)
   | Ok root1 =>
     do root2 <- add_rules (d_id d) root1 (d_config d);
     match d_annot d with Some r => add_rule (d_id d) root2 r | None => Ok root2 end
